@@ -73,7 +73,7 @@ def case_strategy(draw):
                 upper=draw(st.one_of(st.sampled_from([0, 0.0, 5]), uf.map(lambda v: 3 + 3 * 0.5 * (1 + v)), uf.map(lambda v: 3 + 3 * 0.5 * (1 + v)), uf.map(lambda v: 3 + 3 * 0.5 * (1 + v)))),
                 lower=draw(st.one_of(st.sampled_from([0, 0.0, 5]), uf.map(lambda v: 3 + 3 * 0.5 * (1 + v)), uf.map(lambda v: 3 + 3 * 0.5 * (1 + v)), uf.map(lambda v: 3 + 3 * 0.5 * (1 + v)))),
                 maxiter=draw(st.sampled_from([3, 2, 10, 1, 0])), wvary=draw(st.booleans()),
-                weights=draw(st.sampled_from(['invvar', 'invvar', 'invvar', 'none', 'none-integer-y'])), exact_range=exact,
+                weights=draw(st.sampled_from(['invvar', 'invvar', 'invvar', 'none', 'none-integer-y', 'none-flat-y'])), exact_range=exact,
                 # some abscissae occur twice or three times (two exposures on one grid, rounded positions)
                 dups=draw(st.sampled_from([[], [], draw(st.lists(st.tuples(st.integers(1, n - 2), st.integers(1, n - 2)), min_size=1, max_size=8))])))
 
@@ -160,8 +160,11 @@ def body(case):
         # inverse variance omitted: documented default = 1 / (sample variance of y) for every point
         if wmode == 'none-integer-y':
             y = np.round(y * 100.0 / case['amp']).astype('i8')          # photon-count like integer data
+        if wmode == 'none-flat-y':
+            y = np.full(n, 3.0 * case['amp'])                            # exactly constant data: sample variance 0, documented fallback = unit weights
         yv = y.astype('f8')
-        iv = np.full(n, 1.0 / (yv.var() * (float(n) / float(n - 1))))
+        v_ = yv.var() * (float(n) / float(n - 1))
+        iv = np.full(n, 1.0 / v_ if v_ > 0 else 1.0)
     keep = (x.copy(), y.copy(), iv.copy())
     perm = np.array(case['perm'])
     if wmode == 'invvar':
@@ -259,7 +262,7 @@ def tie_case(draw):
         b = 4 * draw(st.integers(-3, 3))
         ys.append([b + 4 * draw(st.sampled_from([0, 0, 1, -1, 2, -2, 3, -3, 4])) for _ in range(4)])
     return dict(ys=ys, U=draw(st.sampled_from([3, 6, 2, 5, 9, 4, 1])), ivar=draw(st.sampled_from([1.0, 4.0, 0.25])), perm=list(draw(st.permutations(list(range(4 * m))))),
-                side=draw(st.sampled_from(['both', 'upper', 'lower'])))
+                side=draw(st.sampled_from(['both', 'upper', 'lower'])), on_knots=draw(st.booleans()))
 
 
 def tie_body(case):
@@ -269,7 +272,9 @@ def tie_body(case):
     from pydl.pydlutils.bspline import iterfit
     ys = np.array(case['ys'], dtype='f8')
     m = len(ys)
-    x = 0.5 + np.arange(4 * m, dtype='f8')
+    # abscissae between the breakpoints, or on the integers 1..4m so that every fourth one sits exactly on a breakpoint: a point on
+    # a breakpoint belongs to the interval that ends there (b[i], b[i+1]] - with that, every interval holds four points either way
+    x = (1.0 if case.get('on_knots') else 0.5) + np.arange(4 * m, dtype='f8')
     y = ys.ravel()
     iv = np.full(4 * m, case['ivar'])
     U = float(case['U'])
@@ -291,6 +296,9 @@ def tie_body(case):
         got[perm] = np.asarray(mask, dtype=bool)
         check(np.array_equal(got, want), 'mask-differs-on-exactly-representable-residuals',
               lambda: dict(residuals=r.tolist(), upper=kw['upper'], lower=kw['lower'], got=got.tolist(), want=want.tolist()))
+        yv, mv = call(sset.value, x.copy())
+        check(bool(np.array_equal(np.asarray(yv, dtype='f8'), np.repeat(ys.mean(1), 4))), 'curve-is-not-the-interval-mean',
+              lambda: dict(got=np.asarray(yv).tolist(), want=np.repeat(ys.mean(1), 4).tolist(), on_knots=bool(case.get('on_knots'))))
     if (np.abs(r) == U).any():
         note_label('residual-exactly-on-limit')
 
